@@ -149,7 +149,7 @@ def check_partition(parser_mod, lines, labels):
     of its first line, and want lines are exactly the non-prompt lines that follow source."""
     docstr = '\n'.join(lines)
     parts = parser_mod.DoctestParser().parse(docstr)
-    lines = docstr.expandtabs().splitlines()
+    lines = docstr.expandtabs().split('\n')      # the lines as the source file has them (not str.splitlines(): see SEPARATORS)
     indents = [len(ln) - len(ln.lstrip()) for ln in lines if ln.strip()]
     cut = min(indents) if indents else 0
     expected = [ln[cut:] if ln.strip() else ln.strip() for ln in lines]
@@ -257,6 +257,8 @@ def run(eng, tier, seed):
     # escape in a (non-raw) docstring (\\f, \\v, \\x1c..\\x1e, \\x85, \\u2028, \\u2029) they sit INSIDE one file line
     n_sep = 0
     cex_sep = None
+    n13_sep = 0
+    cex13_sep = None
     count_sep = 0
     for style, lines, raise_at, labels in docstrings(tier, seed + 1):
         count_sep += 1
@@ -265,6 +267,13 @@ def run(eng, tier, seed):
             break
         sep = SEPARATORS[count_sep % len(SEPARATORS)]
         lines2 = ['Intro text with the character %s written as an escape; more text.' % sep] + list(lines)
+        try:
+            problem13 = check_partition(parser_mod, lines2, ['text'] + list(labels))
+        except Exception as ex:      # noqa
+            problem13 = 'harness/parse: %r' % (ex,)
+        n13_sep += 1
+        if problem13 is not None and cex13_sep is None:
+            cex13_sep = {'docstring_lines': lines2, 'separator': repr(sep), 'problem': problem13}
         for L in (1, 17):
             try:
                 k, problem = check_docstring(core, style, lines2, raise_at, L)
@@ -281,6 +290,10 @@ def run(eng, tier, seed):
                                   'but a source file does not (form feed, vertical tab, FS/GS/RS, NEL, U+2028, U+2029) x 2 start lines'
                                   % (count_sep, len(SEPARATORS)),
                          'evaluations': n_sep, 'counterexample': cex_sep},
+                        {'name': 'C13.parts-reproduce-the-docstring-with-separator-characters',
+                         'bound': 'the same %d docstrings with a separator character in the first line: the parts laid end to end give back '
+                                  'every source-file line once, in order, unchanged' % count_sep,
+                         'evaluations': n13_sep, 'counterexample': cex13_sep},
                         {'name': 'C08.line-numbers-point-at-their-text',
                          'bound': '%d random docstrings (freeform and google layout, 1..4 code blocks, text between them, skip labels, '
                                   'indentation 0/4) x 2 docstring start lines' % count,
